@@ -29,8 +29,11 @@ def parseMsg (s : String) : Option LoginMsg :=
   if s = "nonjson" then some ⟨0, 0, [], none⟩
   else match s.splitOn ":" with
     | [e, sb, u, kind, pw] => do
-      let ev ← e.toNat?
-      let sub ← sb.toNat?
+      -- Go ints may be negative: codes are only ever compared for equality with the (small, regenerated)
+      -- configured codes, so a negative code is mapped injectively to a number no configured code equals
+      let code := fun (t : String) => t.toInt?.map fun (i : Int) => if i < 0 then 2 ^ 64 + i.natAbs else i.toNat
+      let ev ← code e
+      let sub ← code sb
       let user ← hexStr u
       let p ← hexStr pw
       pure ⟨ev, sub, user, if kind = "str" then some p else none⟩
